@@ -479,8 +479,10 @@ def space_analysis(pid, script_lines, impl, model, meta):
                 continue
             nomodel = model[i] == "-"
             try:
-                ih, iself, iusage = [int(x) for x in impl[i].split(" ")]
-                mh, mself, musage = (ih, iself, iusage) if nomodel else [int(x) for x in model[i].split(" ")]
+                ifields = impl[i].split(" ")
+                ih, iself, iusage = [int(x) for x in ifields[:3]]
+                scaled_bits = ifields[3:6]
+                mh, mself, musage = (ih, iself, iusage) if nomodel else [int(x) for x in model[i].split(" ")[:3]]
             except ValueError:
                 viol.append({"type": "impl-vs-model", "line": i, "case": cur["case"], "request": req, "impl": impl[i][:200], "model": model[i][:200], "spec": ""})
                 continue
@@ -488,6 +490,17 @@ def space_analysis(pid, script_lines, impl, model, meta):
             fam = info["fam"]
             huff = fam in ("hqwt", "hwt")
             rec = {"line": i, "case": cur["case"], "request": req, "fam": fam, "impl": impl[i], "model": model[i], "spec": ""}
+            # C16 last clause: KiB/MiB/GiB are the byte count divided by 2^10, 2^20, 2^30 -- compared as
+            # exact rationals (the f64 the crate returned, read from its bit pattern, times the divisor)
+            if pid == "C16" and len(scaled_bits) == 3:
+                import struct
+                from fractions import Fraction
+                for bits, sh, nm in zip(scaled_bits, (10, 20, 30), ("KiB", "MiB", "GiB")):
+                    fv = struct.unpack(">d", bytes.fromhex(bits))[0]
+                    okv = fv == fv and fv not in (float("inf"), float("-inf")) and Fraction(fv) * (1 << sh) == iusage
+                    stats["scaled_checks"] = stats.get("scaled_checks", 0) + 1
+                    if not okv:
+                        viol.append(dict(rec, type="impl-vs-spec", sub="C16-scaled", spec=f"space_usage_{nm}*2^{sh}=={iusage}", impl=f"space_usage_{nm}={fv!r}"))
             # T3: usage transcription and requested heap bytes
             if iusage != musage:
                 viol.append(dict(rec, type="impl-vs-model", sub="usage"))
